@@ -566,6 +566,122 @@ static void plan_specials()
     });
 }
 
+// domain sweep: stratified samples over every bit pattern of each out-of-domain region (uniform in the bit
+// pattern, i.e. every binade and both region edges), every lane must be NaN
+struct Region
+{
+    int fn;
+    std::string name;
+    int kind; // 0: x<0 (-0 excluded)  1: x<-1  2: |x|>1  3: x<1 (every negative incl. -0, and [+0,1))  4: pow(x<0 finite, y finite non-integer)
+              // 5: x = NaN of any payload / sign / quiet bit (binary: y ordinary)   6: y = NaN, x ordinary
+};
+static std::vector<Region> make_regions()
+{
+    std::vector<Region> v = {
+        { FN_LOG, "domain_log_negative", 0 }, { FN_LOG2, "domain_log2_negative", 0 }, { FN_LOG10, "domain_log10_negative", 0 }, { FN_SQRT, "domain_sqrt_negative", 0 },
+        { FN_LOG1P, "domain_log1p_below_minus_one", 1 }, { FN_ASIN, "domain_asin_outside", 2 }, { FN_ACOS, "domain_acos_outside", 2 }, { FN_ATANH, "domain_atanh_outside", 2 },
+        { FN_ACOSH, "domain_acosh_below_one", 3 }, { FN_POW, "domain_pow_negative_base", 4 },
+    };
+    for (int fn = FN_SQRT; fn <= FN_POW; ++fn)
+    {
+        v.push_back({ fn, std::string("nan_argument_") + MATHFN[fn].name, 5 });
+        if (MATHFN[fn].nin == 2)
+            v.push_back({ fn, std::string("nan_second_argument_") + MATHFN[fn].name, 6 });
+    }
+    return v;
+}
+static const std::vector<Region> REGIONS = make_regions();
+template <class T>
+static void plan_domains()
+{
+    using U = typename FT<T>::U;
+    const U SIGN = (U)1 << (sizeof(T) * 8 - 1), INFB = bitsof((T)INFINITY), ONE = bitsof((T)1);
+    const size_t nr = REGIONS.size();
+    const long nblk = budget(16, 4096);
+    parallel_for((uint64_t)(nr * (size_t)nblk), [&](uint64_t item, Stats& S)
+                 {
+        const Region& R = REGIONS[item % nr];
+        const uint64_t b = item / nr;
+        if (!selected(MATHFN[R.fn].name, FT<T>::name()))
+            return;
+        Rng r(mix(g.seed ^ 0xD0, item));
+        // magnitude pattern range [lo, hi] of the region (sign chosen per element where both signs qualify)
+        auto mag = [&](U lo, U hi) -> U
+        {
+            const U span = hi - lo + 1, w = span / (U)nblk ? span / (U)nblk : 1;
+            const U base = lo + (U)b * w;
+            U m = base + (U)r.below((uint64_t)w);
+            return m > hi ? hi : m;
+        };
+        T x[4096], y[4096], o0[4096], o1[4096];
+        for (size_t i = 0; i < 4096; ++i)
+        {
+            const bool edge = (i & 63) == 0; // every 64th element sits within 8 patterns of a region edge
+            const U k = (U)r.below(8);
+            y[i] = 0;
+            switch (R.kind)
+            {
+            case 0: x[i] = frombits<T>(SIGN | (edge ? ((i & 64) ? (U)1 + k : INFB - k) : mag(1, INFB))); break;
+            case 1: x[i] = frombits<T>(SIGN | (edge ? ((i & 64) ? ONE + 1 + k : INFB - k) : mag(ONE + 1, INFB))); break;
+            case 2: x[i] = frombits<T>(((r.next() & 1) ? SIGN : 0) | (edge ? ((i & 64) ? ONE + 1 + k : INFB - k) : mag(ONE + 1, INFB))); break;
+            case 3:
+                if (r.next() & 1)
+                    x[i] = frombits<T>(SIGN | (edge ? ((i & 64) ? k : INFB - k) : mag(0, INFB)));
+                else
+                    x[i] = frombits<T>(edge ? ((i & 64) ? k : ONE - 1 - k) : mag(0, ONE - 1));
+                break;
+            case 5:
+            case 6:
+            {
+                // NaN patterns: magnitude in (INFB, SIGN) -- stratified like the others, so quiet and signalling, small and large payloads
+                const T q = frombits<T>(((r.next() & 1) ? SIGN : 0) | (edge ? ((i & 64) ? INFB + 1 + k : (SIGN - 1) - k) : mag(INFB + 1, SIGN - 1)));
+                // the ordinary operand: finite, non-zero, not 1 (pow(1, NaN) and pow(NaN, 0) are 1 in C99: not claimed either way)
+                T w;
+                do
+                    w = (T)((r.next() & 1 ? -1.0 : 1.0) * std::ldexp(1.0 + r.unit(), (int)r.below(40) - 20));
+                while (w == (T)1);
+                x[i] = R.kind == 5 ? q : w;
+                y[i] = R.kind == 5 ? w : q;
+                break;
+            }
+            default:
+            {
+                x[i] = frombits<T>(SIGN | (edge ? ((i & 64) ? (U)1 + k : INFB - 1 - k) : mag(1, INFB - 1)));
+                // a finite non-integer exponent: below 2^P in magnitude with a fractional part
+                T yy;
+                do
+                {
+                    int e = (int)r.below((uint64_t)FT<T>::P + 40) - 40;
+                    yy = (T)std::ldexp(1.0 + r.unit(), e);
+                } while (yy == std::floor(yy));
+                y[i] = (r.next() & 1) ? -yy : yy;
+            }
+            }
+        }
+        for (const Lib& L : g.libs)
+        {
+            Stat& st = S.at("C12", R.name, FT<T>::name(), L.arch);
+            const bool two_out = R.fn == FN_SINCOS;
+            eval_lib<T>(L, R.fn, x, MATHFN[R.fn].nin == 2 ? y : nullptr, o0, o1, 4096);
+            for (size_t i = 0; i < 4096; ++i)
+            {
+                st.evals++;
+                if ((i & 15) == 0)
+                {
+                    int e;
+                    (void)std::frexp((double)x[i], &e);
+                    st.cell(R.kind >= 5 ? (unsigned)(bitsof(R.kind == 5 ? x[i] : y[i]) >> (sizeof(T) * 8 - 12)) | (unsigned)(i & 0xf0) << 8 : (unsigned)((x[i] < 0) << 12 | ((e + 2048) & 0xfff)));
+                }
+                if (o0[i] == o0[i] || (two_out && o1[i] == o1[i]))
+                    viol(st, classify_domain<T>(R.fn, x[i]), [&]
+                         { return "{\"x\":\"" + hexT(x[i]) + "\"" + fmt(",\"x_value\":%.17g,\"y_value\":%.17g,\"expected\":\"nan\"", (double)x[i], (double)y[i]) + ",\"got\":\"" + hexT(o0[i]) + "\"" + fmt(",\"got_value\":%.17g,\"index_in_block\":%zu}", (double)o0[i], i); });
+                else if (st.samples.size() < 2 && i == 100)
+                    st.samples.push_back("{\"x\":\"" + hexT(x[i]) + "\"" + fmt(",\"x_value\":%.9g,\"y_value\":%.9g", (double)x[i], (double)y[i]) + ",\"got\":\"" + hexT(o0[i]) + "\"}");
+            }
+        }
+    });
+}
+
 // symmetry / identity relations on blocks of arguments (no reference needed)
 static const int ODD_FNS[] = { FN_SIN, FN_TAN, FN_ASIN, FN_ATAN, FN_SINH, FN_TANH, FN_ASINH, FN_ATANH, FN_CBRT, FN_ERF };
 static const int EVEN_FNS[] = { FN_COS, FN_COSH };
@@ -648,6 +764,8 @@ static void run_C12()
 {
     plan_specials<float>();
     plan_specials<double>();
+    plan_domains<float>();
+    plan_domains<double>();
     // float32: all patterns with x >= 0 (the relation itself supplies -x); thorough: every block on the class arches,
     // every 8th on all; quick: every 128th on all.  Two layouts.
     const uint64_t nblk = (1ull << 31) / 4096;
